@@ -386,6 +386,68 @@ fn check_tree(name: &str, recipe: &[S], spans: &[usize]) -> Out {
     out
 }
 
+
+/// (e) number literals as darklua reads them from their source spelling (no tokens kept): whatever notation the generator
+/// picks, the text must read back as the very same double
+fn literal_spellings(tier: Tier) -> Vec<String> {
+    let mut out = Vec::new();
+    let digits = tier.pick(4, 6);
+    let (lo, hi) = (10u32.pow(digits - 1), 10u32.pow(digits));
+    for m in lo..hi {
+        let ms = m.to_string();
+        let mantissa = format!("{}.{}", &ms[..1], &ms[1..]);
+        for e in -9..=25 {
+            out.push(format!("{}e{}", mantissa, e));
+        }
+        out.push(mantissa.clone());
+        out.push(format!("{}{}", &ms[..1], &ms[1..]));
+        out.push(format!("0.{}", ms));
+        out.push(format!("0.000{}", ms));
+        out.push(format!("{}000000000000000000000", ms));
+    }
+    for s in ["6.97e1", "7.03e1", "9.88e1", "8.1899e20", "6.84e22", "9.99e22", "3.17695444e1", "4.97859528154627e12", "8.778394545839784e16", "1.1561552053477371e19", "1e22", "1e23", "9007199254740993", "0.1e-6", "123456789012345678e3", "5e-324", "1.7976931348623157e308", "2.2250738585072014e-308", "1E5", "2.5E-3", "0.30000000000000004"] {
+        out.push(s.to_owned());
+    }
+    out
+}
+
+fn check_literal(spelling: &str) -> Out {
+    let mut out = Out { n: 0, violations: vec![] };
+    let expected: f64 = match spelling.parse() {
+        Ok(v) => v,
+        Err(_) => return out,
+    };
+    let block = match dl::parse(&format!("return {}", spelling), false) {
+        Ok(b) => b,
+        Err(_) => return out,
+    };
+    for gen in [Gen::Dense(80), Gen::Readable(80)] {
+        out.n += 1;
+        let text = match dl::generate(&block, "", gen) {
+            Ok(t) => t,
+            Err(e) => {
+                out.violations.push(Violation { finding: None, summary: format!("{} ({}) on the number {}", e, gen.name(), spelling), replay: json!({"kind": "literal", "spelling": spelling}) });
+                continue;
+            }
+        };
+        let got = parser::parse(text.as_bytes(), Mode::Luau).ok().and_then(|p| match p.block.stats.first().map(|s| &s.stat) {
+            Some(crate::luaref::ast::Stat::Return(exprs)) => match exprs.first() {
+                Some(crate::luaref::ast::Expr::Number(v)) => Some(*v),
+                _ => None,
+            },
+            _ => None,
+        });
+        if got.map(f64::to_bits) != Some(expected.to_bits()) {
+            out.violations.push(Violation {
+                finding: None,
+                summary: format!("the number written `{}` in the source (value {:e}, bits {:#x}) is written `{}` by {}, which reads as {:?}", spelling, expected, expected.to_bits(), text.trim(), gen.name(), got),
+                replay: json!({"kind": "literal", "spelling": spelling, "generator": gen.name(), "text": text}),
+            });
+        }
+    }
+    out
+}
+
 pub fn run(tier: Tier) -> Report {
     let mut report = Report::new("C02", "exploration", tier);
     report.rule = "trees are built directly with the public `nodes` constructors from recipes that also build the luaref AST they must denote: (a) every ordered \
@@ -394,7 +456,9 @@ pub fn run(tier: Tier) -> Report {
         long-bracket strings, tables, functions, parenthesised, calls with string/table sugar, fields, indexes with long-string keys, interpolated strings) on \
         both sides of the operators, after unary operators, as prefixes, arguments and table entries; (c) 35 minimal statements, every ordered pair of them, every \
         last statement after each, nested blocks; (d) 20 base types nested to depth 1 (2 in thorough) in local annotations, casts and type declarations; x \
-        {dense, readable} x column spans {0,1,2,3,5,8,13,21,40,80,120} (all 0..=120 in thorough), identical texts counted once. The text is parsed by luaref \
+        {dense, readable} x column spans {0,1,2,3,5,8,13,21,40,80,120} (all 0..=120 in thorough), identical texts counted once; (e) every decimal number with a 4-digit \
+        (6-digit in thorough) mantissa x exponents -9..=25 and five exponent-less placements, read by darklua from its source spelling without tokens: the text of either generator must read \
+        back as the same double, bit for bit. The text is parsed by luaref \
         and its normal form (redundant parentheses dropped, multi-value parentheses kept, call sugar desugared) must equal the twin; trees without Luau syntax \
         must also pass the strict Lua 5.1 grammar (incl. the newline-before-call rule)"
         .to_owned();
@@ -411,7 +475,14 @@ pub fn run(tier: Tier) -> Report {
         report.evaluations += o.n;
         report.violations.extend(o.violations);
     }
-    report.distinct_nontrivial = trees.len() as u64;
+    let spellings = literal_spellings(tier);
+    let results: Vec<Out> = spellings.par_iter().map(|sp| check_literal(sp)).collect();
+    for o in results {
+        report.evaluations += o.n;
+        report.violations.extend(o.violations);
+    }
+    report.set("number_spellings", spellings.len() as u64);
+    report.distinct_nontrivial = (trees.len() + spellings.len()) as u64;
     report.set("trees", trees.len() as u64);
     report.set("column_spans", json!(spans));
     for i in [0, trees.len() / 3, trees.len() / 2, trees.len() - 1] {
